@@ -23,8 +23,10 @@
 #include <unistd.h>
 #include <sys/time.h>
 #include <sys/resource.h>
+#include <execinfo.h>
 
 extern "C" void __sanitizer_set_death_callback(void (*cb)(void));
+extern "C" void __sanitizer_symbolize_pc(void *pc, const char *fmt, char *out_buf, size_t out_buf_size);
 
 namespace vf {
 
@@ -115,10 +117,20 @@ inline void write_crash_file(const char *why)
   fprintf(f, "{\"why\":\"%s\",\"key\":\"%s\",\"replay\":%s}\n", why, c.key, c.cur[0] ? c.cur : "null");
   fclose(f);
 }
-inline void on_sanitizer_death() { write_crash_file("sanitizer"); }
+inline void (*&partial_writer())()
+{
+  static void (*fn)() = nullptr;
+  return fn;
+}
+inline void on_sanitizer_death()
+{
+  write_crash_file("sanitizer");
+  if (partial_writer()) partial_writer()(); // save what was covered so far: the driver merges it and resumes after the crashing case
+}
 inline void on_fatal_signal(int sig)
 {
   write_crash_file(sig == SIGXCPU || sig == SIGALRM ? "watchdog" : "signal");
+  if (partial_writer()) partial_writer()();
   _exit(sig == SIGXCPU || sig == SIGALRM ? 98 : 99);
 }
 inline void install_crash_handler(const std::string &crashpath)
@@ -216,6 +228,29 @@ struct Report {
   }
 };
 
+// register a report so that a crash saves it as <path>.partial
+inline Report *&partial_report()
+{
+  static Report *r = nullptr;
+  return r;
+}
+inline std::string &partial_path()
+{
+  static std::string p;
+  return p;
+}
+inline void write_partial_report()
+{
+  if (partial_report() && !partial_path().empty()) partial_report()->write(partial_path());
+}
+inline void enable_partial_report(Report *r, const std::string &out)
+{
+  partial_report()  = r;
+  partial_path()    = out + ".partial";
+  unlink(partial_path().c_str());
+  partial_writer()  = write_partial_report;
+}
+
 // ------------------------------------------------------------------ CLI args
 struct Args {
   std::string family, tier = "quick", out, replay;
@@ -270,12 +305,19 @@ inline double now_s()
 // engines; EX-B uses its own locked variant.
 struct Ledger {
   std::unordered_map<void *, size_t> live;
+  bool                               trace = false; // record the allocation call stack of every block (leak attribution)
+  struct Bt {
+    void *pc[10];
+    int   n;
+  };
+  std::unordered_map<void *, Bt> bts;
   uint64_t                           nalloc = 0;    // allocation attempts since reset
   uint64_t                           fail_at = 0;   // 1-based index of the allocation to fail, 0 = none
   bool                               failed = false;
   void reset()
   {
     live.clear();
+    bts.clear();
     nalloc  = 0;
     fail_at = 0;
     failed  = false;
@@ -300,8 +342,34 @@ inline void *l_malloc(size_t n)
 {
   if (ledger_should_fail()) return nullptr;
   void *p = malloc(n ? n : 1);
-  if (p) ledger().live[p] = n;
+  if (p) {
+    ledger().live[p] = n;
+    if (ledger().trace) {
+      Ledger::Bt b;
+      b.n             = backtrace(b.pc, 10);
+      ledger().bts[p] = b;
+    }
+  }
   return p;
+}
+// name of the first frames of the allocation stack that are not allocator wrappers ("fn1<fn2")
+inline std::string ledger_site(void *p)
+{
+  auto it = ledger().bts.find(p);
+  if (it == ledger().bts.end()) return "?";
+  std::string out;
+  int         taken = 0;
+  for (int i = 0; i < it->second.n && taken < 2; i++) {
+    char buf[256];
+    __sanitizer_symbolize_pc((char *)it->second.pc[i] - 1, "%f", buf, sizeof buf);
+    std::string f = buf;
+    if (f.find("l_malloc") != std::string::npos || f.find("l_realloc") != std::string::npos || f.find("backtrace") != std::string::npos || f == "ares_malloc" ||
+        f == "ares_malloc_zero" || f == "ares_realloc" || f == "ares_realloc_zero" || f == "ares_strdup" || f.find("interceptor") != std::string::npos || f.empty())
+      continue;
+    out += (taken ? "<" : "") + f;
+    taken++;
+  }
+  return out.empty() ? "?" : out;
 }
 inline void l_free(void *p)
 {
@@ -314,6 +382,7 @@ inline void l_free(void *p)
     return;
   }
   l.live.erase(it);
+  l.bts.erase(p);
   free(p);
 }
 inline void *l_realloc(void *p, size_t n)
@@ -328,8 +397,14 @@ inline void *l_realloc(void *p, size_t n)
   if (!q) return nullptr;
   memcpy(q, p, old < n ? old : n);
   if (it != l.live.end()) l.live.erase(it);
+  l.bts.erase(p);
   free(p);
   l.live[q] = n;
+  if (l.trace) {
+    Ledger::Bt b;
+    b.n      = backtrace(b.pc, 10);
+    l.bts[q] = b;
+  }
   return q;
 }
 
